@@ -1,20 +1,35 @@
 """C05 — tracing keeps recording after an exception inside traced code (DESIGN §5 C05).
 
-Correspondence: random nested scripts (tracer callbacks whose operands make the comparison raise,
-`with temporarily_disable()/temporarily_enable()` blocks, SUT-style `try/except`, plain raises) are
-interpreted on the real `ExecutionTracer` and by the Lean model (`Driver/C05.lean`); the triples
-`(is_disabled, covered line ids, executed predicates)` are compared after every step.
+Correspondence: random nested scripts are interpreted on the real `ExecutionTracer` and by the Lean
+model (`Driver/C05.lean`); the tuples `(is_disabled, covered line ids, executed predicates, executed
+instructions, executed code objects)` are compared after every step.  A script consists of
+  * every callback instrumented code makes: line, code object, the four predicate callbacks, the
+    checked-coverage callbacks (generic / memory / jump / call / return / attribute access);
+  * predicate callbacks whose operands run code of their own (`__lt__`, `__eq__`, `__bool__`,
+    `__contains__` of the module under test — a nested script, run by the tracer inside
+    `with temporarily_disable()`) and raise — an `Exception` or a bare `BaseException`
+    (`SystemExit`, `KeyboardInterrupt`, `GeneratorExit`);
+  * attribute-access callbacks whose lookup runs code (property getter, `__getattr__`, descriptor — a
+    nested script, run by the tracer with the flag as it is) and raises;
+  * `with temporarily_disable()/temporarily_enable()` blocks, SUT-style `try/except Exception` and
+    `try/except BaseException`, plain raises.
 Oracle: a flag-free reference interpreter written here (what is recorded depends only on the lexical
-with-context) plus "flag at the end == flag at the start".
-End-to-end: generated modules that catch an exception raised from a traced comparison are executed by
-the real `TestCaseExecutor`; the lines after the handler must be covered.
+with-context) plus "flag after every top-level event == flag at the start".  Code that the tracer runs
+for its own evaluation of operands / attributes is not "executed by the test case": the property does
+not say whether it is recorded, so such code uses ids ≥ 100 and the oracle ignores those ids (the
+model comparison does not).
+End-to-end: a generated module whose functions catch what a traced comparison / truth test /
+membership test / attribute load raises (Exception and BaseException kinds) is executed by the real
+`TestCaseExecutor` under BRANCH+LINE and under BRANCH+LINE+CHECKED instrumentation; everything executed
+after the handler (lines, the later predicate with its exact count, checked instructions) must be
+recorded.
 
-The variant (`repaired` = `try/finally` in `temporarily_disable`, `legacy` = before the fix) is read
-off the source of the tree under test, so that the model/implementation comparison stays meaningful
-on both trees; the property oracle does not depend on it.
+The variant (`repaired` = `try/finally` in `temporarily_disable`, `legacy` = no `finally`) is read
+off the source of the tree under test; the property oracle does not depend on it.
 """
 from __future__ import annotations
 
+import dis
 import importlib
 import inspect
 import os
@@ -23,12 +38,15 @@ import sys
 import tempfile
 import textwrap
 import threading
+import zlib
 
 import vcommon
 from vcommon import Failure, PropertyCheck, run_main
 
+INNER = 100  # ids >= INNER: code run by the tracer's own operand / attribute evaluation
 
-# ---- operands whose comparison / truth value raises ---------------------------------------------
+
+# ---- operands whose comparison / truth value raises by itself -------------------------------------
 class _Unorderable:
     pass
 
@@ -60,14 +78,112 @@ class _RaisingContains:
         return iter(())
 
 
-def _snap(tracer):
-    t = tracer.get_trace()
-    return {"disabled": tracer.is_disabled(), "lines": list(t.covered_line_ids),
-            "preds": [[p, c] for p, c in t.executed_predicates.items()]}
+class _ScriptOperand:
+    """An object of the module under test whose operators run (instrumented) code: `thunk`, once."""
+
+    __hash__ = None
+
+    def __init__(self, thunk, result):
+        self._thunk, self._result, self._done = thunk, result, False
+
+    def _go(self, *_):
+        if not self._done:
+            self._done = True
+            try:
+                self._thunk()
+            except TypeError as e:
+                # `_in` (membership distance) reads a TypeError of `__contains__` as "not a container"
+                # and goes on; whether such a predicate counts is not C05's business: keep the
+                # operators of this object free of TypeError
+                exc = _Raise("TypeError in operand code")
+                exc._c05 = True
+                raise exc from e
+        return self._result
+
+    __lt__ = __le__ = __gt__ = __ge__ = __eq__ = __ne__ = __contains__ = _go
+
+    def __bool__(self):
+        return self._go()
+
+    def __iter__(self):
+        return iter(())
+
+
+class _Plain:
+    klass_attr = (1, 2)
+
+    def __init__(self):
+        self.inst_attr = [1]
+
+    def method(self):
+        return 0
+
+
+class _Slotted:
+    __slots__ = ("slot_attr",)
+
+    def __init__(self):
+        self.slot_attr = "s"
+
+
+def _script_attr_object(flavour, thunk):
+    """An object whose attribute `value` is computed by code of the module under test (`thunk`)."""
+    state = {"done": False}
+
+    def go():
+        if not state["done"]:
+            state["done"] = True
+            thunk()
+        return 7
+
+    if flavour == 0:
+        cls = type("LazyProperty", (), {"value": property(lambda self: go())})
+    elif flavour == 1:
+        def __getattr__(self, name):
+            if name == "value":
+                return go()
+            raise AttributeError(name)
+        cls = type("Dynamic", (), {"__getattr__": __getattr__})
+    else:
+        class Descriptor:
+            def __get__(self, inst, owner):
+                return go()
+        cls = type("WithDescriptor", (), {"value": Descriptor()})
+    return cls()
 
 
 class _Raise(Exception):
     pass
+
+
+class _BaseRaise(BaseException):
+    pass
+
+
+_EXC = {"exception": [_Raise, lambda: ValueError("c05"), lambda: AttributeError("c05"), StopIteration,
+                      lambda: OSError("c05")],
+        "base": [lambda: SystemExit(3), KeyboardInterrupt, GeneratorExit, _BaseRaise]}
+_OP = dis.opmap
+_FILE = "c05_script.py"
+
+
+def _ours_or_reraise(e):
+    """`except BaseException` of the interpreted script: never swallow a foreign interrupt."""
+    if isinstance(e, Exception) or getattr(e, "_c05", False):
+        return
+    raise e
+
+
+def _snap(tracer):
+    t = tracer.get_trace()
+    return {"disabled": tracer.is_disabled(), "lines": list(t.covered_line_ids),
+            "preds": [[p, c] for p, c in t.executed_predicates.items()],
+            "instrs": [i.node_id for i in t.executed_instructions],
+            "codeObjs": list(t.executed_code_objects)}
+
+
+def _is_raise_only(body, kind):
+    return body == [{"raise": {"e": kind}}]
 
 
 class C05(PropertyCheck):
@@ -75,18 +191,34 @@ class C05(PropertyCheck):
     prop_modules = ["PynguinModel.Props.C05"]
     extra_modules = ["PynguinModel.Model.TracerState"]
     driver = "Driver/C05.lean"
-    n_quick = 2000
-    n_thorough = 100000
+    n_quick = 1600
+    n_thorough = 60000
     n_search = 20000
-    rule = ("random nested scripts of ≤ 30 events (line/predicate callbacks, raising operands, "
-            "with temporarily_disable/enable, try/except, raise), depth ≤ 3; non-trivial = a script in "
-            "which a callback raises while tracing is enabled and at least one callback follows")
-    assumptions = ["one thread (thread-locality of the flag and TracingAbortedException are C32)",
-                   "exceptions raised by operands derive from Exception"]
+    rule = ("random nested scripts of ≤ 30 events (line / code-object / predicate / checked-coverage "
+            "callbacks, operand and attribute-lookup code that raises Exception or BaseException kinds, "
+            "with temporarily_disable/enable, try/except Exception|BaseException, raise), depth ≤ 3; "
+            "non-trivial = a script in which a predicate or attribute callback raises while tracing is "
+            "enabled and at least one test-case-level callback is recorded afterwards")
+    assumptions = ["one thread (thread-locality of the flag and TracingAbortedException are C32)"]
     trusted_base_extra = ["the script interpreter of harness/c05.py (maps events to real tracer calls)"]
 
     # -- generation ---------------------------------------------------------------------------
-    def _block(self, rng, depth, budget):
+    def _exc(self, rng):
+        return "exception" if rng.random() < 0.6 else "base"
+
+    def _inner_body(self, rng, depth, budget):
+        k = rng.random()
+        if k < 0.45:
+            return []
+        if k < 0.75:
+            return [{"raise": {"e": self._exc(rng)}}]
+        body = self._block(rng, max(depth + 1, 2), budget, True) if depth < 3 else []
+        if rng.random() < 0.6:
+            body.append({"raise": {"e": self._exc(rng)}})
+        return body
+
+    def _block(self, rng, depth, budget, inner=False):
+        off = INNER if inner else 0
         evs = []
         n = rng.randint(0, min(6, budget[0])) if depth else rng.randint(1, 12)
         for _ in range(n):
@@ -94,17 +226,29 @@ class C05(PropertyCheck):
                 break
             budget[0] -= 1
             k = rng.random()
-            if k < 0.30:
-                evs.append({"line": {"l": rng.randint(0, 9)}})
-            elif k < 0.62:
-                evs.append({"pred": {"p": rng.randint(0, 15), "raises": rng.random() < 0.45}})
+            if k < 0.22:
+                evs.append({"line": {"l": off + rng.randint(0, 9)}})
+            elif k < 0.47:
+                evs.append({"pred": {"p": off + rng.randint(0, 23),
+                                     "body": self._inner_body(rng, depth, budget)}})
+            elif k < 0.58:
+                evs.append({"attr": {"i": off + rng.randint(0, 11),
+                                     "body": self._inner_body(rng, depth, budget)}})
             elif k < 0.66:
-                evs.append("raise")
+                evs.append({"instr": {"i": off + rng.randint(0, 19)}})
+            elif k < 0.69:
+                evs.append({"codeObj": {"c": off + rng.randint(0, 4)}})
+            elif k < 0.73:
+                evs.append({"raise": {"e": self._exc(rng)}})
             elif depth < 3:
                 kind = rng.choice(["tryExcept", "tryExcept", "withDisabled", "withEnabled"])
-                evs.append({kind: {"body": self._block(rng, depth + 1, budget)}})
+                body = self._block(rng, depth + 1, budget, inner)
+                if kind == "tryExcept":
+                    evs.append({kind: {"c": "base" if rng.random() < 0.6 else "exception", "body": body}})
+                else:
+                    evs.append({kind: {"body": body}})
             else:
-                evs.append({"line": {"l": rng.randint(0, 9)}})
+                evs.append({"line": {"l": off + rng.randint(0, 9)}})
         return evs
 
     def gen_case(self, rng):
@@ -114,10 +258,11 @@ class C05(PropertyCheck):
             for _ in range(rng.randint(1, 4)):
                 budget = [8]
                 evs += [{"withDisabled": {"body": self._block(rng, 2, budget)}},
-                        {"tryExcept": {"body": self._block(rng, 1, [10])}},
+                        {"tryExcept": {"c": "base", "body": self._block(rng, 1, [10])}},
                         {"withDisabled": {"body": self._block(rng, 2, budget)}}]
-        elif shape < 0.45:  # flat script, every callback caught by the SUT
-            evs = [{"tryExcept": {"body": [e]}} for e in self._block(rng, 3, [30])]
+        elif shape < 0.5:  # flat script, every callback in a try of the SUT
+            evs = [{"tryExcept": {"c": "base" if rng.random() < 0.75 else "exception", "body": [e]}}
+                   for e in self._block(rng, 3, [30])]
         else:
             evs = self._block(rng, 0, [30])
         return {"enabled": rng.random() < 0.9, "evs": evs}
@@ -128,46 +273,95 @@ class C05(PropertyCheck):
         src = inspect.getsource(AbstractExecutionTracer.temporarily_disable)
         return "repaired" if "finally" in src else "legacy"
 
-    def _call_pred(self, tracer, p, raises):
+    def _call_pred(self, tracer, p, body, log):
         from pynguin.instrumentation import PynguinCompare as PC
-        kind, flavour = p % 4, (p // 4) % 3
-        if raises and kind == 2:
-            kind = 0  # exception matching itself has no operand-dependent way to raise
-        self.count(f"pred:{'raising' if raises else 'ok'}:{kind}")
+        kind, flavour, alt = p % 4, (p // 4) % 3, (p // 12) % 2
+        if body and kind == 2:
+            kind = 0  # exception matching itself runs no code of the module under test
+        natural = _is_raise_only(body, "exception") and alt == 0
+        self.count(f"pred:{'plain' if not body else 'natural-raise' if natural else 'script'}:{kind}")
+        if body and not natural:
+            obj = _ScriptOperand(lambda: self._run(tracer, body, log), bool(flavour % 2) ^ bool(alt))
         if kind == 0:
-            if raises:
+            if natural:
                 a, b, op = [(_Unorderable(), 3, PC.LT), (_RaisingEq(), 1, PC.EQ),
                             (1, _RaisingOrder(), PC.GE)][flavour]
+            elif body:
+                a, b, op = [(obj, 3, PC.NE if alt else PC.LT), (obj, 1, PC.EQ if alt else PC.GT),
+                            (1, obj, PC.NOT_IN if alt else PC.IN)][flavour]
             else:
                 a, b, op = [(3, 5, PC.LT), ("a", "b", PC.EQ), (1, [1, 2], PC.IN)][flavour]
             tracer.executed_compare_predicate(a, b, p, op)
         elif kind == 1:
-            v = _RaisingBool() if raises else [5, "", [0]][flavour]
+            v = _RaisingBool() if natural else obj if body else [5, "", [0]][flavour]
             tracer.executed_bool_predicate(v, p)
         elif kind == 2:
             err, exc = [(ValueError("x"), Exception), (KeyError, ValueError),
                         (OSError("x"), (KeyError, OSError))][flavour]
             tracer.executed_exception_match(err, exc, p)
         else:
-            if raises:
-                tracer.executed_in_presence_predicate(1, _RaisingContains(), p)
+            c = _RaisingContains() if natural else obj if body else [[1], [2], (1, 3)][flavour]
+            tracer.executed_in_presence_predicate(1, c, p)
+
+    def _call_attr(self, tracer, i, body, log):
+        natural = _is_raise_only(body, "exception") and (i // 6) % 2 == 0
+        self.count(f"attr:{'plain' if not body else 'natural-raise' if natural else 'script'}")
+        if natural:
+            name, obj = "missing_attribute", [_Plain(), _Slotted(), 5][i % 3]
+        elif body:
+            name, obj = "value", _script_attr_object(i % 3, lambda: self._run(tracer, body, log))
+        else:
+            name, obj = [("inst_attr", _Plain()), ("klass_attr", _Plain()), ("method", _Plain()),
+                         ("append", []), ("slot_attr", _Slotted()), (None, _Plain())][i % 6]
+        tracer.track_attribute_access(_FILE, 0, i, _OP["LOAD_ATTR"], 1, 0, name, obj)
+
+    def _call_instr(self, tracer, i):
+        k = i % 5
+        self.count(f"instr:{k}")
+        if k == 0:
+            tracer.track_generic(_FILE, 0, i, _OP["NOP"], 1, 0)
+        elif k == 1:
+            if (i // 5) % 2:
+                tracer.track_memory_access(_FILE, 0, i, _OP["STORE_FAST"], 1, 0, ("a", "b"), ([i], 2))
             else:
-                tracer.executed_in_presence_predicate(1, [[1], [2], (1, 3)][flavour], p)
+                tracer.track_memory_access(_FILE, 0, i, _OP["LOAD_FAST"], 1, 0, "x", [i])
+        elif k == 2:
+            tracer.track_jump(_FILE, 0, i, _OP["POP_JUMP_IF_FALSE"], 1, 0, 3)
+        elif k == 3:
+            tracer.track_call(_FILE, 0, i, _OP["CALL"], 1, 0, 1)
+        else:
+            tracer.track_return(_FILE, 0, i, _OP["RETURN_VALUE"], 1, 0)
 
     def _run(self, tracer, evs, log):
         for e in evs:
             self._exec(tracer, e, log)
 
     def _exec(self, tracer, e, log):
-        if e == "raise":
-            raise _Raise()
         (k, v), = e.items()
+        if k == "raise":
+            self._nraise += 1
+            flavours = _EXC[v["e"]]
+            exc = flavours[self._nraise % len(flavours)]()
+            exc._c05 = True
+            self.count(f"raise:{type(exc).__name__}")
+            raise exc
         if k == "line":
             tracer.track_line_visit(v["l"])
             log.append(_snap(tracer))
+        elif k == "codeObj":
+            tracer.executed_code_object(v["c"])
+            log.append(_snap(tracer))
+        elif k == "instr":
+            self._call_instr(tracer, v["i"])
+            log.append(_snap(tracer))
         elif k == "pred":
             try:
-                self._call_pred(tracer, v["p"], v["raises"])
+                self._call_pred(tracer, v["p"], v["body"], log)
+            finally:
+                log.append(_snap(tracer))
+        elif k == "attr":
+            try:
+                self._call_attr(tracer, v["i"], v["body"], log)
             finally:
                 log.append(_snap(tracer))
         elif k == "withDisabled":
@@ -187,109 +381,159 @@ class C05(PropertyCheck):
                 if was_disabled:
                     log.append(_snap(tracer))
         elif k == "tryExcept":
-            try:
-                self._run(tracer, v["body"], log)
-            except Exception:  # noqa: BLE001 - the SUT's handler / the executor's exec wrapper
-                pass
+            # the SUT's handler / the executor's wrapper around exec
+            if v["c"] == "exception":
+                try:
+                    self._run(tracer, v["body"], log)
+                except Exception:  # noqa: BLE001
+                    pass
+            else:
+                try:
+                    self._run(tracer, v["body"], log)
+                except BaseException as exc:  # noqa: BLE001
+                    _ours_or_reraise(exc)
         else:
             raise AssertionError(k)
 
     def impl(self, case):
+        if case.get("e2e"):
+            return {"e2e_failures": [[f.signature, f.what, f.detail] for f in
+                                     self._e2e(case["metrics"], [case["kind"]], [case["x"]])]}
         from pynguin.instrumentation.tracer import ExecutionTracer
         tracer = ExecutionTracer()
         tracer._current_thread_identifier = threading.current_thread().ident  # as __enter__ does
         if not case["enabled"]:
             tracer.disable()
-        log, raised = [], False
+        log, flags, raised = [], [], None
+        self._nraise = zlib.crc32(vcommon.jdump(case).encode())  # which concrete exception class
         try:
-            self._run(tracer, case["evs"], log)
-        except Exception:  # noqa: BLE001
-            raised = True
-        return {"log": log, "final": _snap(tracer), "raised": raised, "variant": self._variant()}
+            for e in case["evs"]:  # top level: what the executor sees between statements
+                try:
+                    self._exec(tracer, e, log)
+                finally:
+                    flags.append(tracer.is_disabled())
+        except BaseException as exc:  # noqa: BLE001
+            _ours_or_reraise(exc)
+            raised = "exception" if isinstance(exc, Exception) else "base"
+        return {"log": log, "flags": flags, "final": _snap(tracer), "raised": raised,
+                "variant": self._variant()}
 
     # -- model side ----------------------------------------------------------------------------
     def model_line(self, case):
+        if case.get("e2e"):
+            return None
         return vcommon.jdump({"variant": self._variant(), "enabled": case["enabled"],
                               "evs": case["evs"]})
 
     def compare(self, case, io, mo):
         return (mo.get("log") == io["log"] and mo.get("final") == io["final"]
-                and mo.get("raised") == io["raised"])
+                and mo.get("raised") == io["raised"] and mo.get("flags") == io["flags"])
 
     # -- property oracle on the implementation (flag-free reference interpreter) -----------------
     @classmethod
-    def _ref(cls, ctx, lines, preds, evs):
-        """Returns True iff an exception propagates. What is recorded depends only on `ctx`."""
+    def _ref(cls, ctx, tr, evs, st):
+        """Returns the kind of the exception that propagates (or None). What is recorded depends
+        only on `ctx`; `st` collects facts for `classify`."""
         for e in evs:
-            if e == "raise":
-                return True
             (k, v), = e.items()
-            if k == "line":
-                if ctx and v["l"] not in lines:
-                    lines.append(v["l"])
+            exc = None
+            if k == "raise":
+                exc = v["e"]
+            elif k == "line":
+                if ctx and v["l"] not in tr["lines"]:
+                    tr["lines"].append(v["l"])
+            elif k == "codeObj":
+                if ctx and v["c"] not in tr["codeObjs"]:
+                    tr["codeObjs"].append(v["c"])
+            elif k == "instr":
+                if ctx:
+                    tr["instrs"].append(v["i"])
             elif k == "pred":
                 if ctx:
-                    if v["raises"]:
-                        return True
-                    preds[v["p"]] = preds.get(v["p"], 0) + 1
+                    exc = cls._ref(False, tr, v["body"], st)
+                    if exc is None:
+                        tr["preds"][v["p"]] = tr["preds"].get(v["p"], 0) + 1
+                    else:
+                        st["raised_in_callback"] = True
+                        st["kinds"].add("pred-" + exc)
+            elif k == "attr":
+                if ctx:
+                    exc = cls._ref(ctx, tr, v["body"], st)
+                    if exc is None:
+                        tr["instrs"].append(v["i"])
+                    else:
+                        st["raised_in_callback"] = True
+                        st["kinds"].add("attr-" + exc)
             elif k == "withDisabled":
-                if cls._ref(False, lines, preds, v["body"]):
-                    return True
+                exc = cls._ref(False, tr, v["body"], st)
             elif k == "withEnabled":
-                if cls._ref(True, lines, preds, v["body"]):
-                    return True
+                exc = cls._ref(True, tr, v["body"], st)
             elif k == "tryExcept":
-                cls._ref(ctx, lines, preds, v["body"])
-        return False
+                exc = cls._ref(ctx, tr, v["body"], st)
+                if exc is not None and (v["c"] == "base" or exc == "exception"):
+                    exc = None
+            if ctx and k in ("line", "codeObj", "instr", "pred", "attr") and exc is None \
+                    and st.get("raised_in_callback") and cls._outer(e):
+                st["recorded_after"] = True
+            if exc is not None:
+                return exc
+        return None
+
+    @staticmethod
+    def _outer(e):
+        (_, v), = e.items()
+        return next(iter(v.values())) < INNER
+
+    @staticmethod
+    def _visible(snap):
+        """The part of a trace the property speaks about: ids of code executed by the test case."""
+        return {"lines": sorted(x for x in snap["lines"] if x < INNER),
+                "preds": sorted((p, c) for p, c in map(tuple, snap["preds"]) if p < INNER),
+                "instrs": [x for x in snap["instrs"] if x < INNER],
+                "codeObjs": sorted(x for x in snap["codeObjs"] if x < INNER)}
+
+    def _expected(self, case):
+        tr = {"lines": [], "preds": {}, "instrs": [], "codeObjs": []}
+        st = {"kinds": set()}
+        self._ref(case["enabled"], tr, case["evs"], st)
+        tr["preds"] = list(tr["preds"].items())
+        return tr, st
 
     def oracle(self, case, io):
+        if case.get("e2e"):
+            return [Failure(s, w, case=case, detail=d) for s, w, d in io["e2e_failures"]]
         fs = []
-        lines, preds = [], {}
-        self._ref(case["enabled"], lines, preds, case["evs"])
+        tr, st = self._expected(case)
         fin = io["final"]
-        if fin["disabled"] != (not case["enabled"]):
+        if any(f != (not case["enabled"]) for f in io["flags"] + [fin["disabled"]]):
             fs.append(Failure({"class": "enabled-flag-not-restored"},
-                              "the tracer's enabled flag after the script differs from the flag "
-                              "before it (an exception inside a `with temporarily_disable()` body "
-                              "skipped enable())", detail={"final": fin}))
-        if sorted(fin["lines"]) != sorted(lines) or dict(map(tuple, fin["preds"])) != preds:
+                              "the tracer's enabled flag after a top-level event (a statement / an "
+                              "observer bracket) differs from the flag before it: an exception that "
+                              "left a callback or a `with temporarily_disable()` body skipped the "
+                              "restore", detail={"flags_disabled": io["flags"], "final": fin,
+                                                 "raised_in_callbacks": sorted(st["kinds"])}))
+        got, want = self._visible(fin), self._visible(tr)
+        if got != want:
             fs.append(Failure({"class": "events-lost-after-exception"},
-                              "lines/predicates executed after a caught exception are missing from "
-                              "the trace", detail={"final": fin, "expected_lines": lines,
-                                                   "expected_preds": preds}))
+                              "lines/predicates/instructions/code objects executed by the test case "
+                              "after a caught exception are missing from the trace (or extra ones "
+                              "appear)", detail={"recorded": got, "expected": want,
+                                                 "raised_in_callbacks": sorted(st["kinds"])}))
         return fs
 
     def classify(self, case, io):
-        # non-trivial: some callback raised while tracing was on, and something was recorded later
-        seen_raise = False
-        flat = []
-
-        def walk(evs, ctx):
-            for e in evs:
-                if e == "raise":
-                    flat.append(("raise", ctx))
-                    continue
-                (k, v), = e.items()
-                if k in ("line", "pred"):
-                    flat.append((k, ctx, v.get("raises", False)))
-                elif k == "withDisabled":
-                    walk(v["body"], False)
-                elif k == "withEnabled":
-                    walk(v["body"], True)
-                else:
-                    walk(v["body"], ctx)
-
-        walk(case["evs"], case["enabled"])
-        for j, f in enumerate(flat):
-            if f[0] == "pred" and f[1] and f[2]:
-                seen_raise = j < len(flat) - 1
-                break
-        return vcommon.jdump(case) if seen_raise else None
+        if case.get("e2e"):
+            return None
+        _, st = self._expected(case)
+        for kind in st["kinds"]:
+            self.count("raised-in-callback:" + kind)
+        return vcommon.jdump(case) if st.get("recorded_after") else None
 
     # -- witness replay -------------------------------------------------------------------------
     WITNESS = {"enabled": True,
-               "evs": [{"tryExcept": {"body": [{"pred": {"p": 0, "raises": True}}]}},
-                       {"line": {"l": 7}}]}
+               "evs": [{"tryExcept": {"c": "exception", "body": [
+                   {"pred": {"p": 0, "body": [{"raise": {"e": "exception"}}]}}]}},
+                   {"line": {"l": 7}}]}
 
     def witnesses(self):
         io = self.impl(self.WITNESS)
@@ -304,11 +548,16 @@ class C05(PropertyCheck):
 
     # -- end-to-end: real instrumentation + TestCaseExecutor --------------------------------------
     SUT_TEMPLATE = '''
+    import sys
+
+
     class U:
         pass
 
 
     class BadEq:
+        __hash__ = None
+
         def __eq__(self, other):
             raise ValueError("eq")
 
@@ -316,6 +565,38 @@ class C05(PropertyCheck):
     class BadBool:
         def __bool__(self):
             raise KeyError("bool")
+
+
+    class Quitter:
+        def __lt__(self, other):
+            sys.exit(3)
+
+
+    class Interrupted:
+        def __bool__(self):
+            raise KeyboardInterrupt
+
+
+    class Closing:
+        def __contains__(self, item):
+            raise GeneratorExit
+
+
+    class Lazy:
+        @property
+        def value(self):
+            raise AttributeError("value was not computed yet")
+
+
+    class Dynamic:
+        def __getattr__(self, name):
+            raise KeyError(name)
+
+
+    class LazyQuitter:
+        @property
+        def value(self):
+            raise SystemExit(2)
 
 
     def probe(kind, x):
@@ -331,8 +612,25 @@ class C05(PropertyCheck):
         elif kind == 3:
             if x in 5:
                 return 1
-        else:
+        elif kind == 4:
             return x.missing_attribute
+        elif kind == 5:
+            if Quitter() < x:
+                return 1
+        elif kind == 6:
+            if Interrupted():
+                return 1
+        elif kind == 7:
+            if x in Closing():
+                return 1
+        elif kind == 8:
+            return Lazy().value
+        elif kind == 9:
+            return Dynamic().anything
+        elif kind == 10:
+            return LazyQuitter().value
+        else:
+            return Closing()[x]
         return 0
 
 
@@ -341,11 +639,13 @@ class C05(PropertyCheck):
             return probe(kind, x)
         except (TypeError, ValueError, KeyError, AttributeError):
             return -1
+        except BaseException:
+            return -2
 
 
     def after(x):
         r = 5  # AFTER
-        if x == 3:
+        if x == 3:  # AFTER PRED
             r += 10  # AFTER3
         else:
             r -= 1  # AFTERN
@@ -357,8 +657,10 @@ class C05(PropertyCheck):
         b = after(x)  # AFTER
         return a + b  # AFTER
     '''
+    E2E_KINDS = 12
+    E2E_METRICS = {"branch-line": ["BRANCH", "LINE"], "checked": ["BRANCH", "LINE", "CHECKED"]}
 
-    def extra_checks(self):
+    def _e2e(self, metrics, kinds, xs):
         import libcst as cst
         import pynguin.configuration as config
         import pynguin.testcase.testcase as tc
@@ -368,64 +670,104 @@ class C05(PropertyCheck):
 
         fs = []
         src = textwrap.dedent(self.SUT_TEMPLATE)
-        tagged = {}
+        tagged, pred_line = {}, None
         for i, line in enumerate(src.splitlines(), 1):
             if "# AFTER" in line:
-                tagged[i] = line.split("# ")[1].strip()
+                tagged[i] = line.split("# ")[1].split()[0]
+                if line.rstrip().endswith("PRED"):
+                    pred_line = i
         d = tempfile.mkdtemp(prefix="verif-c05-")
-        name = f"sutc05_{self.seed}_{os.getpid()}"
+        name = f"sutc05_{self.seed}_{os.getpid()}_{metrics.replace('-', '_')}"
+        path = os.path.join(d, name + ".py")
         saved_cfg = (config.configuration.module_name, config.configuration.project_path,
                      list(config.configuration.statistics_output.coverage_metrics))
         try:
-            with open(os.path.join(d, name + ".py"), "w") as f:
+            with open(path, "w") as f:
                 f.write(src)
             sys.path.insert(0, d)
             config.configuration.module_name = name
             config.configuration.project_path = d
             config.configuration.statistics_output.coverage_metrics = [
-                config.CoverageMetric.BRANCH, config.CoverageMetric.LINE]
+                getattr(config.CoverageMetric, m) for m in self.E2E_METRICS[metrics]]
+            checked = "CHECKED" in self.E2E_METRICS[metrics]
             sp = SubjectProperties()
             try:
                 with install_import_hook(name, sp):
                     with sp.instrumentation_tracer:
                         mod = importlib.import_module(name)
                         importlib.reload(mod)
-                    executor = TestCaseExecutor(sp, maximum_test_execution_timeout=60,
-                                                test_execution_time_per_statement=30)
+                    stmt_flags = []
+
+                    class Probe(TestCaseExecutor):
+                        """Observes the flag right before and right after every statement."""
+
+                        def _exec_statement(self, *args, **kwargs):
+                            tracer = self._subject_properties.instrumentation_tracer
+                            before = tracer.is_disabled()
+                            try:
+                                return super()._exec_statement(*args, **kwargs)
+                            finally:
+                                stmt_flags.append((before, tracer.is_disabled()))
+
+                    executor = Probe(sp, maximum_test_execution_timeout=60,
+                                     test_execution_time_per_statement=30)
                     runs = 0
-                    for kind in range(5):
-                        for x in (3, 4):
+                    for kind in kinds:
+                        for x in xs:
                             test = tc.TestCase()
                             for j, code in enumerate([f"var_0 = f({kind}, {x})",
                                                       f"var_1 = after({x})"]):
                                 node = cst.parse_module(code + "\n").body[0]
                                 test.add_statement(tc.Statement(node=node, bound_variable=f"var_{j}",
                                                                 bound_type=None))
+                            del stmt_flags[:]
                             res = executor.execute(test)
                             if res.timeout:  # loaded machine: not an observation of this property
                                 self.count("e2e:timeout")
                                 continue
                             runs += 1
-                            covered = set(sp.lineids_to_linenos(res.execution_trace.covered_line_ids))
+                            trace = res.execution_trace
+                            covered = set(sp.lineids_to_linenos(trace.covered_line_ids))
                             want = {ln for ln, tag in tagged.items()
                                     if tag == "AFTER" or tag == ("AFTER3" if x == 3 else "AFTERN")}
                             missing = sorted(want - covered)
-                            self.count("e2e:run")
-                            if res.has_test_exceptions() or missing or \
-                                    not res.execution_trace.executed_predicates:
+                            # `if x == 3` is evaluated by f(...) after the handler and by the 2nd statement
+                            pred_count = sum(c for p, c in trace.executed_predicates.items()
+                                             if sp.existing_predicates[p].line_no == pred_line)
+                            no_instr = []
+                            if checked:
+                                instr_lines = {i.lineno for i in trace.executed_instructions
+                                               if i.file == path}
+                                no_instr = sorted(want - instr_lines)
+                            self.count(f"e2e:run:{metrics}")
+                            flags = list(stmt_flags)
+                            if len(flags) != 2 or any(b != a for b, a in flags):
+                                fs.append(Failure(
+                                    {"class": "e2e-flag-not-restored-by-statement"},
+                                    f"TestCaseExecutor ({'+'.join(self.E2E_METRICS[metrics])}), kind={kind}, "
+                                    f"x={x}: is_disabled() (before, after) each executed statement = {flags}; "
+                                    f"the statement catches what a traced comparison / attribute load raises",
+                                    case={"e2e": True, "metrics": metrics, "kind": kind, "x": x},
+                                    detail={"stmt_flags": flags}))
+                            if res.has_test_exceptions() or missing or pred_count != 2 or no_instr:
                                 fs.append(Failure(
                                     {"class": "e2e-lines-lost-after-caught-exception"},
-                                    f"TestCaseExecutor on a module whose function catches the exception "
-                                    f"of a traced comparison (kind={kind}, x={x}): lines {missing} executed "
-                                    f"after the handler are not covered",
-                                    case={"e2e": True, "kind": kind, "x": x},
+                                    f"TestCaseExecutor ({'+'.join(self.E2E_METRICS[metrics])}) on a module "
+                                    f"whose function catches what a traced comparison / attribute load "
+                                    f"raises (kind={kind}, x={x}): after the handler, lines {missing} are "
+                                    f"not covered, the predicate on line {pred_line} was recorded "
+                                    f"{pred_count}x instead of 2x, lines {no_instr} have no checked "
+                                    f"instruction",
+                                    case={"e2e": True, "metrics": metrics, "kind": kind, "x": x},
                                     detail={"covered": sorted(covered), "missing": missing,
+                                            "pred_count": pred_count, "no_instruction": no_instr,
                                             "exceptions": res.has_test_exceptions()}))
                                 break
                         else:
                             continue
                         break
-                    self.extra_coverage["e2e_executions"] = runs
+                    key = f"e2e_executions_{metrics}"
+                    self.extra_coverage[key] = self.extra_coverage.get(key, 0) + runs
             except RuntimeError as e:
                 if "stacksize" in str(e):  # instrumentation defect D24 (C01/C03), not this property
                     self.notes.append(f"e2e skipped: instrumentation failed ({e})")
@@ -439,6 +781,12 @@ class C05(PropertyCheck):
                 sys.path.remove(d)
             sys.modules.pop(name, None)
             shutil.rmtree(d, ignore_errors=True)
+        return fs
+
+    def extra_checks(self):
+        fs = []
+        for metrics in self.E2E_METRICS:
+            fs += self._e2e(metrics, range(self.E2E_KINDS), (3, 4))
         return fs
 
 
